@@ -73,6 +73,13 @@ type Query struct {
 	// TargetReturn makes a return of the root function a target depending on the value it returns on this path:
 	// val resolves a result operand to a known boolean (constants, short-circuit phis, results of calls the path went through).
 	TargetReturn func(r *ssa.Return, val func(v ssa.Value) (known bool, b bool)) bool
+	// Ascend > 0 lets the search leave the function it started in: at a return of the root frame it continues after
+	// every static call site of that function in the module (at most Ascend levels up, context-insensitive: the
+	// caller's facts start empty, the returned values are classified as for Deep).
+	Ascend int
+	// SkipStart: Target / Block are not evaluated on the instruction the search starts at (used to start *at* a call
+	// so that an interprocedural search enters it).
+	SkipStart bool
 }
 
 type factState struct {
@@ -162,6 +169,8 @@ func (s *factState) apply(key, c string, eq bool, enumAll []string) (*factState,
 }
 
 // CondAtom decomposes a condition into (x <op> const).  eq is true for ==.
+var trueConst = ssa.NewConst(constant.MakeBool(true), types.Typ[types.Bool])
+
 func CondAtom(v ssa.Value) (x ssa.Value, c *ssa.Const, eq bool, ok bool) {
 	neg := false
 	for {
@@ -173,7 +182,21 @@ func CondAtom(v ssa.Value) (x ssa.Value, c *ssa.Const, eq bool, ok bool) {
 		v = u.X
 	}
 	b, isB := v.(*ssa.BinOp)
-	if !isB || (b.Op != token.EQL && b.Op != token.NEQ) {
+	if !isB {
+		// a bare boolean parameter or field: `if flag` is `flag == true`
+		if bt, isBasic := v.Type().Underlying().(*types.Basic); isBasic && bt.Kind() == types.Bool {
+			switch x := v.(type) {
+			case *ssa.Parameter:
+				return v, trueConst, !neg, true
+			case *ssa.UnOp:
+				if x.Op == token.MUL {
+					return v, trueConst, !neg, true
+				}
+			}
+		}
+		return nil, nil, false, false
+	}
+	if b.Op != token.EQL && b.Op != token.NEQ {
 		return nil, nil, false, false
 	}
 	eq = b.Op == token.EQL
@@ -233,6 +256,7 @@ type searchNode struct {
 	parent *searchNode
 	pred   *ssa.BasicBlock // block the path arrived from (nil at the start)
 	fr     *frame          // call stack of the interprocedural search (nil in the root function)
+	up     int             // levels ascended into callers
 }
 
 type frame struct {
@@ -305,6 +329,15 @@ func translateFacts(cur *factState, call *ssa.Call, g *ssa.Function) *factState 
 			n.eq[nk] = v
 		}
 	}
+	// constant arguments are facts about the parameters
+	for i, a := range args {
+		if i >= len(g.Params) {
+			break
+		}
+		if k, ok := a.(*ssa.Const); ok {
+			n.eq[ValueKey(g.Params[i])] = ConstKey(k)
+		}
+	}
 	for k, m := range cur.neq {
 		if nk, ok := mapKey(k); ok {
 			mm := map[string]bool{}
@@ -318,9 +351,20 @@ func translateFacts(cur *factState, call *ssa.Call, g *ssa.Function) *factState 
 }
 
 // classifyReturn records what the path through the callee returned: constant booleans and nil / non-nil errors.
-func classifyReturn(st *factState, call *ssa.Call, r *ssa.Return, pred *ssa.BasicBlock) {
+// boolResolver, when set by the running query, resolves a non-constant boolean result (by the query's assumptions
+// or by the facts of the path through the callee).
+var boolResolver func(v ssa.Value, facts *factState) (val bool, known bool)
+
+func classifyReturn(st *factState, call *ssa.Call, r *ssa.Return, pred *ssa.BasicBlock, calleeFacts ...*factState) {
 	g := r.Parent()
 	ei := ErrorResultIndex(g)
+	nilable := func(t types.Type) bool {
+		switch t.Underlying().(type) {
+		case *types.Pointer, *types.Interface, *types.Map, *types.Slice, *types.Signature, *types.Chan:
+			return true
+		}
+		return false
+	}
 	for j := range r.Results {
 		v := unspill(r, r.Results[j])
 		if phi, ok := v.(*ssa.Phi); ok && phi.Block() == r.Block() && pred != nil {
@@ -334,11 +378,34 @@ func classifyReturn(st *factState, call *ssa.Call, r *ssa.Return, pred *ssa.Basi
 		delete(st.rets, key)
 		if k, ok := v.(*ssa.Const); ok {
 			if k.Value == nil {
-				if j == ei {
+				if j == ei || nilable(v.Type()) {
 					st.rets[key] = "nil"
 				}
 			} else if k.Value.Kind() == constant.Bool {
 				st.rets[key] = k.Value.ExactString()
+			}
+		} else if bt, isBasic := v.Type().Underlying().(*types.Basic); isBasic && bt.Kind() == types.Bool && boolResolver != nil {
+			var cf *factState
+			if len(calleeFacts) > 0 {
+				cf = calleeFacts[0]
+			}
+			if val, known := boolResolver(v, cf); known {
+				if val {
+					st.rets[key] = "true"
+				} else {
+					st.rets[key] = "false"
+				}
+			}
+		} else if nilable(v.Type()) {
+			// known non-nil on this path: a fresh object, or a value the path tested against nil
+			switch v.(type) {
+			case *ssa.Alloc, *ssa.MakeInterface, *ssa.MakeMap, *ssa.MakeSlice, *ssa.MakeClosure, *ssa.Function:
+				st.rets[key] = "err"
+			}
+			for _, cf := range calleeFacts {
+				if cf != nil && cf.neq[ValueKey(v)]["nil"] {
+					st.rets[key] = "err"
+				}
 			}
 		}
 		if j == ei && IsErrorReturn(r) {
@@ -404,6 +471,40 @@ func (q *Query) Search(from Point) []Point {
 			st.neq[k][v] = true
 		}
 	}
+	prevResolver := boolResolver
+	defer func() { boolResolver = prevResolver }()
+	boolResolver = func(v ssa.Value, facts *factState) (bool, bool) {
+		neg := false
+		for {
+			u, ok := v.(*ssa.UnOp)
+			if !ok || u.Op != token.NOT {
+				break
+			}
+			neg = !neg
+			v = u.X
+		}
+		if q.Assume != nil {
+			if val, ok := q.Assume(v); ok {
+				return val != neg, true
+			}
+		}
+		if facts != nil {
+			if x, c, eq, ok := CondAtom(v); ok {
+				k := ValueKey(x)
+				ck := ConstKey(c)
+				if cur, has := facts.eq[k]; has {
+					return ((cur == ck) == eq) != neg, true
+				}
+				if facts.neq[k][ck] {
+					return (!eq) != neg, true
+				}
+			}
+			if known, val := retCond(facts, v); known {
+				return val != neg, true
+			}
+		}
+		return false, false
+	}
 	visited := map[string]bool{}
 	stack := []*searchNode{{pt: from, st: st}}
 	for len(stack) > 0 {
@@ -415,7 +516,7 @@ func (q *Query) Search(from Point) []Point {
 				predIdx = n.pred.Index
 			}
 		}
-		key := fmt.Sprintf("%s%s.%d.%d.%d|%s", n.fr.sig(), FuncKey(n.pt.B.Parent()), n.pt.B.Index, n.pt.I, predIdx, n.st.String())
+		key := fmt.Sprintf("%d^%s%s.%d.%d.%d|%s", n.up, n.fr.sig(), FuncKey(n.pt.B.Parent()), n.pt.B.Index, n.pt.I, predIdx, n.st.String())
 		if visited[key] {
 			continue
 		}
@@ -433,13 +534,14 @@ func (q *Query) Search(from Point) []Point {
 					for k, v := range cur.rets {
 						ns.rets[k] = v
 					}
-					classifyReturn(ns, n.fr.call, r, n.pred)
-					stack = append(stack, &searchNode{pt: After(n.fr.call), st: ns, parent: n, pred: n.fr.callerPred, fr: n.fr.parent})
+					classifyReturn(ns, n.fr.call, r, n.pred, cur)
+					stack = append(stack, &searchNode{pt: After(n.fr.call), st: ns, parent: n, pred: n.fr.callerPred, fr: n.fr.parent, up: n.up})
 					blocked = true
 					break
 				}
 			}
-			if q.Target != nil && q.Target(in) {
+			skip := q.SkipStart && n.parent == nil && n.fr == nil && b == from.B && i == from.I
+			if q.Target != nil && !skip && q.Target(in) {
 				return witness(n, Point{b, i})
 			}
 			if q.TargetReturn != nil && n.fr == nil {
@@ -464,12 +566,34 @@ func (q *Query) Search(from Point) []Point {
 					}
 				}
 			}
-			if q.Block != nil && q.Block(in) {
+			if q.Block != nil && !skip && q.Block(in) {
+				blocked = true
+				break
+			}
+			if r, isRet := in.(*ssa.Return); isRet && n.fr == nil && q.Ascend > 0 && n.up < q.Ascend {
+				for _, cs := range CallersOf(b.Parent()) {
+					ns := &factState{eq: map[string]string{}, neq: map[string]map[string]bool{}, rets: map[string]string{}}
+					for k, v := range cur.rets {
+						ns.rets[k] = v
+					}
+					classifyReturn(ns, cs, r, n.pred, cur)
+					stack = append(stack, &searchNode{pt: After(cs), st: ns, parent: n, up: n.up + 1})
+				}
 				blocked = true
 				break
 			}
 			if q.Facts {
 				cur = killFacts(cur, in)
+				// a pointer whose field is addressed here is not nil on the rest of the path
+				if fa, ok := in.(*ssa.FieldAddr); ok {
+					if _, isPtr := fa.X.Type().Underlying().(*types.Pointer); isPtr {
+						if k := ValueKey(fa.X); !strings.HasPrefix(k, "?") {
+							if ns, feasible := cur.apply(k, "nil", false, nil); feasible {
+								cur = ns
+							}
+						}
+					}
+				}
 			}
 			if q.Deep > 0 {
 				if call, isCall := in.(*ssa.Call); isCall {
@@ -477,9 +601,9 @@ func (q *Query) Search(from Point) []Point {
 					if n.fr != nil {
 						depth = n.fr.depth
 					}
-					if g := StaticCallee(&call.Call); g != nil && depth < q.Deep && InModule(g) && len(g.Blocks) > 0 && g != b.Parent() && !n.fr.onStack(g) && (q.Descend == nil || q.Descend(g)) {
+					if g := StaticCallee(&call.Call); g != nil && depth < q.Deep && InModule(g) && len(g.Blocks) > 0 && g != b.Parent() && g != from.B.Parent() && !n.fr.onStack(g) && (q.Descend == nil || q.Descend(g)) {
 						ns := translateFacts(cur, call, g)
-						stack = append(stack, &searchNode{pt: Entry(g), st: ns, parent: n, fr: &frame{call: call, callee: g, parent: n.fr, saved: cur, callerPred: n.pred, depth: depth + 1}})
+						stack = append(stack, &searchNode{pt: Entry(g), st: ns, parent: n, fr: &frame{call: call, callee: g, parent: n.fr, saved: cur, callerPred: n.pred, depth: depth + 1}, up: n.up})
 						blocked = true
 						break
 					}
@@ -487,7 +611,7 @@ func (q *Query) Search(from Point) []Point {
 			}
 		}
 		if cur != n.st {
-			n = &searchNode{pt: n.pt, st: cur, parent: n.parent, pred: n.pred, fr: n.fr}
+			n = &searchNode{pt: n.pt, st: cur, parent: n.parent, pred: n.pred, fr: n.fr, up: n.up}
 		}
 		if blocked {
 			continue
@@ -544,9 +668,9 @@ func (q *Query) Search(from Point) []Point {
 				continue
 			}
 			if q.TargetEdge != nil && q.TargetEdge(b, si) {
-				return witness(&searchNode{pt: Point{succ, 0}, st: st2, parent: n, pred: b, fr: n.fr}, Point{succ, 0})
+				return witness(&searchNode{pt: Point{succ, 0}, st: st2, parent: n, pred: b, fr: n.fr, up: n.up}, Point{succ, 0})
 			}
-			stack = append(stack, &searchNode{pt: Point{succ, 0}, st: st2, parent: n, pred: b, fr: n.fr})
+			stack = append(stack, &searchNode{pt: Point{succ, 0}, st: st2, parent: n, pred: b, fr: n.fr, up: n.up})
 		}
 	}
 	return nil
@@ -960,7 +1084,7 @@ func DominatedByEdgeDeep(roots []*ssa.Function, in ssa.Instruction, pred func(b 
 		if r == in.Parent() {
 			d = 0
 		}
-		q := &Query{Target: func(x ssa.Instruction) bool { return x == in }, BlockEdge: pred, Deep: d}
+		q := &Query{Target: func(x ssa.Instruction) bool { return x == in }, BlockEdge: pred, Deep: d, Facts: d > 0}
 		if q.Search(Entry(r)) != nil {
 			return false
 		}
@@ -978,10 +1102,31 @@ func DominatedByInstrDeep(roots []*ssa.Function, in ssa.Instruction, pred func(x
 		if r == in.Parent() {
 			d = 0
 		}
-		q := &Query{Target: func(x ssa.Instruction) bool { return x == in }, Block: func(x ssa.Instruction) bool { return x != in && pred(x) }, Deep: d}
+		q := &Query{Target: func(x ssa.Instruction) bool { return x == in }, Block: func(x ssa.Instruction) bool { return x != in && pred(x) }, Deep: d, Facts: d > 0}
 		if q.Search(Entry(r)) != nil {
 			return false
 		}
 	}
 	return true
 }
+
+
+var callersIndex map[*ssa.Function][]*ssa.Call
+var callersProg *ssa.Program
+
+// RegisterCallers indexes the (non-deferred) static call sites of every function of the loaded program.
+func RegisterCallers(funcs []*ssa.Function) {
+	callersIndex = map[*ssa.Function][]*ssa.Call{}
+	for _, f := range funcs {
+		AllInstrs(f, func(in ssa.Instruction) {
+			if call, ok := in.(*ssa.Call); ok {
+				if g := StaticCallee(&call.Call); g != nil {
+					callersIndex[g] = append(callersIndex[g], call)
+				}
+			}
+		})
+	}
+}
+
+// CallersOf: the static call sites of f (after RegisterCallers).
+func CallersOf(f *ssa.Function) []*ssa.Call { return callersIndex[Origin(f)] }
